@@ -171,8 +171,8 @@ func check(args []string) int {
 		pr := rules.Get(id)
 		c := eng.NewCtx(p, id, *tier)
 		c.Extra["load_s"] = loadS
-		if inl != nil && (len(inl.Inlined) > 0 || inl.Failed != "") {
-			c.Extra["normalisation"] = map[string]any{"inlined": inl.Inlined, "rounds": inl.Rounds, "failed": inl.Failed, "skipped": inl.Skipped}
+		if inl != nil && (len(inl.Inlined) > 0 || inl.Failed != "" || len(inl.Renamed) > 0) {
+			c.Extra["normalisation"] = map[string]any{"inlined": inl.Inlined, "rounds": inl.Rounds, "failed": inl.Failed, "skipped": inl.Skipped, "dropped": inl.Dropped, "renamed": inl.Renamed}
 		}
 		func() {
 			defer func() {
